@@ -353,7 +353,7 @@ inline Result exec_c04(const Plan& plan)
     rq.script = &cm.script;
     const bool const_cursor = !cm.any_write && plan.geti("const_cursor") != 0;
     // by_tag: the same calls routed through sbepp::get_by_tag / set_by_tag(view, ..., cursor)
-    rq.arg = (const_cursor ? 1 : 0) | ((cm.stopped || !cm.complete) ? 2 : 0) | (plan.geti("by_tag") ? 4 : 0) | (plan.geti("converted_cursor") ? 8 : 0);
+    rq.arg = (const_cursor ? 1 : 0) | ((cm.stopped || !cm.complete) ? 2 : 0) | (plan.geti("by_tag") ? 4 : 0) | (plan.geti("converted_cursor") ? 8 : 0) | (plan.geti("converted_cursor") == 2 ? 16 : 0);
     if(plan.geti("by_tag")) sim::stats().count("c04.walks_through_by_tag_accessors");
     Res rs;
     Outcome o = call_driver(drv, rq, rs);
@@ -535,7 +535,7 @@ inline Plan gen_c04(u64 seed, const std::string& tier)
     if(wl.chance(1, 3)) p.seti("extend", 1);
     if(wl.chance(1, 3)) p.seti("const_cursor", 1);
     if(wl.chance(1, 4)) p.seti("by_tag", 1);
-    if(wl.chance(1, 3)) p.seti("converted_cursor", 1); // const cursor obtained by conversion from a mutable one
+    if(wl.chance(1, 3)) p.seti("converted_cursor", root.fork("cursor-assign").chance(1, 2) ? 2 : 1); // const cursor obtained by conversion from a mutable one (constructor / assignment)
     // swarm: wrapper mix of this walk
     const unsigned w_plain = 2 + (unsigned)wl.below(6), w_other = (unsigned)wl.below(4);
     const bool misuse = d.checked && fl.chance(1, 3);
